@@ -65,13 +65,13 @@ CLAIMS = {
    text='Theorems C11_session_framing and C11_pieces_are_whole_entries (Coq, closed): for every history of session operations - incl. channel replacement, writer actions inside consume and every reads-from choice - every single out.write of consume / reconsumeMetadata is a whole number of entries; the channel part is a list of batches, each a writer description with that channel\'s id and name and batchSize = byte length of the one or two pieces that follow; bytes reported = bytes written. Built on C01 (pieces are runs of whole commits). Tied by write-by-write differential runs of the real Session/SessionWriter headers and by the framing oracle on the implementation.',
    note=NOTE_COMMON + 'the stand-ins of harness/drv_session.cpp (atomic, mutex, shared_ptr with libstdc++ orders, fence); the session model keeps one source id per statement site; per-channel delivery is C01.', design='4/C11', technique='Coq invariant proof over the session model layered on the C01 queue refinement; differential correspondence with in-consume interleaving hooks'),
  'C02': dict(
-   text='Theorems C02_channels_refine_fifo (every channel of every reachable session state satisfies the C01 invariant, so every poll delivers exactly-once/in-order per channel), C02_closed_channel_drained (with the acquire fence after the closed test, the poll of a channel found closed delivers everything ever committed to it: removal loses nothing) and C02_removal_without_fence_refuted (the same model without the fence loses an accepted event - the D7 finding, fixed) - Coq, closed. Per-writer order across replaced channels and delivery by the next quiescent consume are checked on the implementation by the exactly-once oracle (not a theorem: stated as partial).',
+   text='Theorems C02_channels_refine_fifo (every channel of every reachable session state satisfies the C01 invariant, so every poll delivers exactly-once/in-order per channel), C02_closed_channel_drained (with the acquire fence after the closed test, the poll of a channel found closed delivers everything ever committed to it: removal loses nothing) C02_no_event_lost_at_removal (for EVERY history and EVERY schedule of lock-free writer actions inside the next consume, each channel that consume removes has released offset = committed length: no accepted event leaves the session undelivered), C02_timely_delivery (a consume during which no writer acts and which sees the writers\' last commits leaves nothing undelivered in any channel) and C02_removal_without_fence_refuted (the same model without the fence loses an accepted event - the D7 finding, fixed) - Coq, closed. PARTIAL: that one writer\'s events keep their order across a queue replacement (two channels) is a property of the concatenated output that no theorem states; it is checked on the implementation by the exactly-once/in-order oracle.',
    note=NOTE_COMMON + 'the stand-ins of harness/drv_session.cpp (atomic, mutex, shared_ptr with libstdc++ orders, fence); the session model keeps one source id per statement site; per-channel delivery is C01.', design='4/C02', technique='Coq proof (queue refinement lifted to sessions, drained-before-removal theorem, refutation witness by vm_compute) + differential correspondence incl. the stale-read schedule'),
  'C03': dict(
-   text='Theorems C03_metadata_first (every consume writes pending clock syncs and all unconsumed sources before polling any channel; nothing inside a consume can register a source), C03_source_ids_distinct, C03_sources_once_per_output (Coq, closed), instantiated with the lock_guard / write-order / store-after-registration facts read off Session.hpp and the macro header. The interleavings considered are those the mutex permits: lock-free writer actions anywhere inside consume. Two threads racing on one statement site are not in the model (one id per site) - observed only.',
+   text='Theorems C03_metadata_first (every consume writes pending clock syncs and all unconsumed sources before polling any channel; nothing inside a consume can register a source), C03_source_ids_distinct, C03_sources_once_per_output, C03_events_follow_their_sources + C03_sources_cover_the_ids (for every history and every schedule inside consume: after the metadata part a consume writes only writer descriptions and whole events whose source ids are below next_sid at its start, and the sources buffer - completely in the output by then - holds exactly one source per such id) (Coq, closed), instantiated with the lock_guard / write-order / store-after-registration facts read off Session.hpp and the macro header. The interleavings considered are those the mutex permits: lock-free writer actions anywhere inside consume. Two threads racing on one statement site are not in the model (one id per site) - observed only.',
    note=NOTE_COMMON + 'the stand-ins of harness/drv_session.cpp (atomic, mutex, shared_ptr with libstdc++ orders, fence); the session model keeps one source id per statement site; per-channel delivery is C01.', design='4/C03', technique='Coq proof over the session model with mutex-atomic operations and in-consume plans; source-derived lock facts; differential correspondence'),
  'C13': dict(
-   text='Theorems C13_rotation_metadata_complete and C13_consume_metadata_first (Coq, closed): an invariant over every history tracks what the CURRENT output holds; after reconsumeMetadata and after every consume the output holds exactly the consumed prefix of the sources (all of them after a consume) and every clock sync set so far, before any event of that consume - for rotations twice in a row, before any consume, and with unconsumed events or sources pending. Tied by differential runs with rotations and an oracle that parses each output on its own.',
+   text='Theorems C13_rotation_metadata_complete, C13_consume_metadata_first and C13_current_output_self_contained (the tracked current output holds a source for every id carried by an event written to it) (Coq, closed): an invariant over every history tracks what the CURRENT output holds; after reconsumeMetadata and after every consume the output holds exactly the consumed prefix of the sources (all of them after a consume) and every clock sync set so far, before any event of that consume - for rotations twice in a row, before any consume, and with unconsumed events or sources pending. Tied by differential runs with rotations and an oracle that parses each output on its own.',
    note=NOTE_COMMON + 'the stand-ins of harness/drv_session.cpp (atomic, mutex, shared_ptr with libstdc++ orders, fence); the session model keeps one source id per statement site; per-channel delivery is C01.', design='4/C13', technique='Coq invariant proof with a ghost tracker of the current output; differential correspondence'),
  'C19': dict(
    text='Theorems C19_disabled_statement_is_noop, C19_enabled_statement_one_event, C19_change_takes_effect (Coq, closed) on the statement model, instantiated with facts read off the macro headers: all 24 named macros expand to BINLOG_CREATE_SOURCE_AND_EVENT_IF whose comparison encloses source creation, argument evaluation and the event; the minimum is an atomic stored with release / loaded with acquire. Tied by the exhaustive product 8 sites x 9 thresholds x {first, repeated} on the real macros with evaluation counters, plus random histories.',
@@ -102,8 +102,8 @@ CLAIMS = {
    text='PARTIAL by theorem, the rest by observation tied to the model. Theorems (Coq, closed): C09_entries_tile_the_input (for EVERY byte string the payloads the reader interprets, with their size fields, tile a prefix of the input and the remainder is the '
         'reported incomplete tail: no entry reaches outside the input), C09_time_assertions_never_fire (for every clock sync, clock value, time zone offset and date format no printTwoDigits / printTimeZoneOffset assertion can fire; instantiated with the %y and '
         'offset arithmetic read off the sources), C09_singular_sequence_collapsed (more than 32 zero-size elements are visited once whatever count the input claims), instances for nesting beyond 2048 and self-referential structs. '
-        'C09_no_amplification_refuted proves on the faithful model that the output bound does NOT hold in general (recorded finding D6, reported as KNOWN-FINDING for its two inputs; any other amplification is a violation). '
-        'Memory safety, stack depth, termination time and output size of the real code are outside what a Coq model can exhibit: they are observed under ASan+UBSan with assertions on, on hostile inputs aimed at the guards, while the model must predict status and text of every one of them '
+        'C09_callbacks_bounded_without_backrefs: for ARBITRARY tag bytes and ARBITRARY input the visitor callbacks (incl. those made before an error) number at most 4|tag| + 16|tag|^2|input| unless a struct back-reference is resolved while visiting (computable predicate noback; recursion limit and the >32 singular guard read off the sources), and C09_callbacks_bounded_for_every_loggable_type (every tag of the C06 type universe satisfies it). C09_no_amplification_refuted proves on the faithful model that the bound does NOT hold once a back-reference is resolved (recorded finding D6, reported as KNOWN-FINDING for its two inputs; any other amplification is a violation). '
+        'Memory safety, stack depth, termination time and the size of the printed text of the real code are outside what a Coq model can exhibit: they are observed under ASan+UBSan with assertions on, on hostile inputs aimed at the guards, while the model must predict status and text of every one of them '
         '(message rendering incl. %.16g floats, time formatting, error isolation), and a sample runs through the real bread binary (exit status 0/3).',
    note=NOTE_COMMON + 'sanitizers as observers; operator new limited to 256 MiB in the line driver (bread stage unlimited); invalid-bool loads and multi-GB allocations for hostile size fields are recorded observations, not counted as violations (DESIGN.md).',
    design='4/C09', technique='Coq proofs on the reader/visitor model for the parts that are logic (bounds of entries, assertion-freedom of time formatting, collapse rule) + refutation witness; model-vs-code differential execution on hostile inputs under sanitizers'),
@@ -129,7 +129,7 @@ CLAIMS = {
         'is read by the tool as exactly the committed bytes from the released offset to the last commit), C08_recovered_range_is_whole_commits (both ends are commit boundaries), C08_partial_event_invisible (any bytes of an event in flight anywhere in the granted window change nothing), '
         'C08_metadata_recoverable_in_every_write_state + C08_good_block_recovered (in every memory state of RecoverableVectorOutputStream::write, growth included, a block with its magic set holds exactly the completed entries and is read by the tool), '
         'C08_scan_finds_the_blocks + C08_recovered_log_of_an_image (for any image made of arbitrary bytes without a stray magic number, metadata blocks and channel blocks in any order the tool finds exactly the blocks and writes what the block theorems say) and C08_metadata_before_data (per session all recovered metadata precede all recovered data); '
-        'built on the C01 invariant and the C20 model of brecovery, instantiated with the growth protocol / single-write / magic facts read off the sources. Not a theorem: that the metadata blocks in memory at an instant cover the sources of the queued events (session-level invariant), and instants inside several operations at once: '
+        'built on the C01 invariant and the C20 model of brecovery, instantiated with the growth protocol / single-write / magic facts read off the sources. C08_session_state_recovered: for EVERY history of the session model (log statements, raw events carrying handed-out ids, writers created/destroyed, queue replacement, consumes with lock-free writer actions inside) the memory of the resulting state - clock-sync buffer, sources buffer and every channel, woven with any magic-free memory - is read back as clock syncs, sources, then the unreleased events of every channel, and every recovered event carries an id whose source is among the recovered sources (at least one clock sync is there); the model state is tied to real memory at points between operations (the blocks the real tool recovered must equal the model state after the same operations). Not a theorem: the combination of the blocks at instants inside a session operation / inside several operations at once: '
         'the real headers run scripted scenarios (sources registered, buffers growing, queues wrapping, writers logging inside consume) and dump all writable mappings at points before/after every atomic access and memcpy of the library; the real brecovery '
         'must recover every completed event, printable, nothing uncommitted, per-queue order, and equal the model on every image.',
    note=NOTE_COMMON + 'harness/drv_crash.cpp stand-ins (layout-compatible atomic, memcpy, mutex); points are boundaries of atomic accesses and memcpy calls (not inside memmove); teardown of the session excluded; an image is assumed to show all completed stores.',
